@@ -291,22 +291,23 @@ func (c *Ctx) Eq(a, b *Term) *Term {
 		a, b = b, a
 	}
 	// ite(c, k1, k2) == k  with constants
-	if b.IsConst() && a.Op == OpIte && a.Args[1].IsConst() && a.Args[2].IsConst() {
-		t1 := a.Args[1].Val == b.Val
-		t2 := a.Args[2].Val == b.Val
+	x, k := a, b
+	if a.IsConst() {
+		x, k = b, a
+	}
+	if k.IsConst() && x.Op == OpIte && x.Args[1].IsConst() && x.Args[2].IsConst() {
+		t1 := x.Args[1].Val == k.Val
+		t2 := x.Args[2].Val == k.Val
 		switch {
 		case t1 && t2:
 			return c.T
 		case t1:
-			return a.Args[0]
+			return x.Args[0]
 		case t2:
-			return c.Not(a.Args[0])
+			return c.Not(x.Args[0])
 		default:
 			return c.F
 		}
-	}
-	if a.IsConst() && b.Op == OpIte && b.Args[1].IsConst() && b.Args[2].IsConst() {
-		return c.Eq(b, a)
 	}
 	return c.mk(&Term{Op: OpEq, Args: []*Term{a, b}})
 }
@@ -330,6 +331,42 @@ func (c *Ctx) Ite(cond, a, b *Term) *Term {
 		}
 		if a.IsFalse() && b.IsTrue() {
 			return c.Not(cond)
+		}
+	}
+	if cond.Op == OpNot {
+		return c.Ite(cond.Args[0], b, a)
+	}
+	// canonical min/max: ite(p<q, p, q), ite(p<=q, p, q), ite(q<p, q, p) ... all
+	// denote min(p, q); likewise max. Use one form, ordered by term id.
+	if cond.Op == OpULt || cond.Op == OpULe || cond.Op == OpSLt || cond.Op == OpSLe {
+		p, q := cond.Args[0], cond.Args[1]
+		signed := cond.Op == OpSLt || cond.Op == OpSLe
+		lt := OpULt
+		if signed {
+			lt = OpSLt
+		}
+		var isMin, isMax bool
+		if a == p && b == q {
+			isMin = true
+		} else if a == q && b == p {
+			isMax = true
+		}
+		if isMin || isMax {
+			lo, hi := p, q
+			if lo.ID > hi.ID {
+				lo, hi = hi, lo
+			}
+			cc := c.cmp(lt, lo, hi)
+			if cc.IsConst() {
+				if (cc.Val == 1) == isMin {
+					return lo
+				}
+				return hi
+			}
+			if isMin {
+				return c.mk(&Term{Op: OpIte, W: a.W, Args: []*Term{cc, lo, hi}})
+			}
+			return c.mk(&Term{Op: OpIte, W: a.W, Args: []*Term{cc, hi, lo}})
 		}
 	}
 	return c.mk(&Term{Op: OpIte, W: a.W, Args: []*Term{cond, a, b}})
